@@ -279,8 +279,15 @@ def reference_test(xs, ys, alt, equal_var, use_t, cl):
 
 
 def compare_result(res, ref, rtol=1e-7, skip_rel_ci=False):
-    """List of (field, got, want) that differ beyond tolerance."""
+    """List of (field, got, want) that differ beyond a conditioning-scaled tolerance.
+
+    The effect is a difference of two means and the statistic divides it by the standard error, so their absolute
+    rounding error is proportional to the magnitude of the MEANS (not of the possibly tiny effect)."""
     bad = []
+    base = max(abs(float(ref["control"])), abs(float(ref["treatment"])), 1e-300)
+    st = float(ref["statistic"])
+    se = abs(float(ref["effect_size"]) / st) if st not in (0.0,) and math.isfinite(st) and st != 0 else base
+    se = se if se > 0 and math.isfinite(se) else base
     for f in RES_FIELDS:
         if skip_rel_ci and f.startswith("rel_effect_size_ci"):
             continue
@@ -291,8 +298,15 @@ def compare_result(res, ref, rtol=1e-7, skip_rel_ci=False):
             if g != w:
                 bad.append((f, g, w))
             continue
-        scale = max(abs(w), abs(ref["effect_size"]) if f.startswith("effect") else 0.0, 1e-300)
-        if abs(g - w) > rtol * scale + (1e-12 if f == "pvalue" else 0):
+        if f in ("control", "treatment"):
+            tol = rtol * base
+        elif f.startswith("effect_size"):
+            tol = rtol * max(base, abs(w))
+        elif f.startswith("rel_"):
+            tol = rtol * max(1.0, abs(w))
+        else:  # statistic, pvalue
+            tol = rtol * max(abs(w), base / se) + (1e-12 if f == "pvalue" else 0.0)
+        if abs(g - w) > tol:
             bad.append((f, g, w))
     return bad
 
